@@ -316,6 +316,9 @@ class TCPPacketGenerator(Device, OutMixIn):
         assert ack.flow_id >= 10000
 
         ackno = ack.ack
+        if ackno < self.last_ack:
+            # an old ACK that was overtaken by a newer one acknowledges nothing
+            return
         if ackno == self.last_ack:
             self.dupack += 1
         else:
